@@ -429,6 +429,63 @@ func (c *PCluster) RaceWriteNewTerm(i int, id int, term int64) string {
 	return rep + " wal=" + walHead()
 }
 
+// RaceAppendNewTerm: an entry of the leader l reaches the follower f, whose sync goroutine is held before it
+// syncs the WAL; a NewTerm request for f is served meanwhile; then the sync goroutine goes on. Reports the
+// head the follower answered and the end of its log afterwards ("head=T:O wal=T:O"), "norace" if the follower
+// did not take the entry.
+func (c *PCluster) RaceAppendNewTerm(l, f int, id int, term int64) string {
+	walHead := func() string {
+		v := c.View(f)
+		if len(v.Log) == 0 {
+			return "-1:-1"
+		}
+		last := v.Log[len(v.Log)-1]
+		return fmt.Sprintf("%s:%d", last[:strings.Index(last, ":")], len(v.Log)-1)
+	}
+	fc, ferr := c.Nodes[f].dirc.GetFollower(Shard)
+	lc, lerr := c.Nodes[l].dirc.GetLeader(Shard)
+	if ferr != nil || lerr != nil {
+		return "norace"
+	}
+	release := make(chan struct{})
+	reached := make(chan struct{})
+	var fired atomic.Bool
+	server.SetVerifYieldHook(fc, func(p string) {
+		if p == "follower.sync.woken" && fired.CompareAndSwap(false, true) {
+			close(reached)
+			<-release
+		}
+	})
+	defer server.SetVerifYieldHook(fc, nil)
+	shard := Shard
+	cb := writeCb{done: make(chan string, 1)}
+	go lc.Write(context.Background(), &proto.WriteRequest{Shard: &shard, Puts: []*proto.PutRequest{{Key: fmt.Sprintf("w%d", id), Value: []byte(fmt.Sprint(id))}}}, cb)
+	took := false
+	select {
+	case <-reached:
+		took = true
+	case <-time.After(2 * time.Second):
+	}
+	rep := c.NewTerm(f, term)
+	fired.Store(true) // the hook must not block later
+	if took {
+		close(release)
+	}
+	// the sync goroutine finishes its round; the write completes with the other followers or times out
+	select {
+	case <-cb.done:
+	case <-time.After(1500 * time.Millisecond):
+	}
+	time.Sleep(30 * time.Millisecond)
+	if !took {
+		return "norace"
+	}
+	if !strings.HasPrefix(rep, "head=") {
+		return rep
+	}
+	return rep + " wal=" + walHead()
+}
+
 // Restart closes the node's controllers (process restart); they are re-created on demand.
 func (c *PCluster) Restart(i int) error {
 	n := c.Nodes[i]
